@@ -172,6 +172,16 @@ func InstallRateSource(e *chain.Env) {
 type Svc struct {
 	C   *chain.Case
 	ktx uint64
+	// Upper: the acting account writes its own address in upper case in the message being sent (bech32 allows it; it is
+	// the same account)
+	Upper bool
+}
+
+func (s *Svc) sp(a sdk.AccAddress) string {
+	if s.Upper {
+		return strings.ToUpper(a.String())
+	}
+	return a.String()
 }
 
 // NewSvc starts a case on e. The begin blockers of height 1 are run once so that the service module's
@@ -255,7 +265,7 @@ func (s *Svc) RefundDeposit(owner, provider sdk.AccAddress, svc string) chain.Re
 
 // SetWithdrawAddress of an owner.
 func (s *Svc) SetWithdrawAddress(owner, addr sdk.AccAddress) chain.Result {
-	return s.C.Deliver(&servicetypes.MsgSetWithdrawAddress{Owner: owner.String(), WithdrawAddress: addr.String()})
+	return s.C.Deliver(&servicetypes.MsgSetWithdrawAddress{Owner: s.sp(owner), WithdrawAddress: addr.String()})
 }
 
 // CallSpec describes a request context.
@@ -315,18 +325,18 @@ func (s *Svc) ModuleCall(module string, cs CallSpec, running bool, threshold uin
 
 // Respond to a request.
 func (s *Svc) Respond(provider sdk.AccAddress, requestID, result, output string) chain.Result {
-	return s.C.Deliver(&servicetypes.MsgRespondService{RequestId: requestID, Provider: provider.String(), Result: result, Output: output})
+	return s.C.Deliver(&servicetypes.MsgRespondService{RequestId: requestID, Provider: s.sp(provider), Result: result, Output: output})
 }
 
 // Control sends pause | start | kill for a context as a message signed by `signer`.
 func (s *Svc) Control(kind, ctxID string, signer sdk.AccAddress) chain.Result {
 	switch kind {
 	case "pause":
-		return s.C.Deliver(&servicetypes.MsgPauseRequestContext{RequestContextId: ctxID, Consumer: signer.String()})
+		return s.C.Deliver(&servicetypes.MsgPauseRequestContext{RequestContextId: ctxID, Consumer: s.sp(signer)})
 	case "start":
-		return s.C.Deliver(&servicetypes.MsgStartRequestContext{RequestContextId: ctxID, Consumer: signer.String()})
+		return s.C.Deliver(&servicetypes.MsgStartRequestContext{RequestContextId: ctxID, Consumer: s.sp(signer)})
 	case "kill":
-		return s.C.Deliver(&servicetypes.MsgKillRequestContext{RequestContextId: ctxID, Consumer: signer.String()})
+		return s.C.Deliver(&servicetypes.MsgKillRequestContext{RequestContextId: ctxID, Consumer: s.sp(signer)})
 	}
 	panic("bad control kind " + kind)
 }
@@ -360,7 +370,7 @@ type CtxUpdate struct {
 // UpdateContext through MsgUpdateRequestContext.
 func (s *Svc) UpdateContext(ctxID string, signer sdk.AccAddress, u CtxUpdate) chain.Result {
 	return s.C.Deliver(&servicetypes.MsgUpdateRequestContext{RequestContextId: ctxID, Providers: addrStrings(u.Providers),
-		ServiceFeeCap: u.FeeCap, Timeout: u.Timeout, RepeatedFrequency: u.Frequency, RepeatedTotal: u.Total, Consumer: signer.String()})
+		ServiceFeeCap: u.FeeCap, Timeout: u.Timeout, RepeatedFrequency: u.Frequency, RepeatedTotal: u.Total, Consumer: s.sp(signer)})
 }
 
 // ModuleUpdateContext through the keeper.
@@ -373,7 +383,7 @@ func (s *Svc) ModuleUpdateContext(ctxID string, consumer sdk.AccAddress, u CtxUp
 
 // Withdraw the earned fees of one provider (message).
 func (s *Svc) Withdraw(owner, provider sdk.AccAddress) chain.Result {
-	return s.C.Deliver(&servicetypes.MsgWithdrawEarnedFees{Owner: owner.String(), Provider: provider.String()})
+	return s.C.Deliver(&servicetypes.MsgWithdrawEarnedFees{Owner: s.sp(owner), Provider: s.sp(provider)})
 }
 
 // WithdrawAll withdraws the earned fees of all providers of an owner. The message handler cannot express it
